@@ -283,7 +283,7 @@ pub enum Statement {
         var: Ref,
         span: Span,
         variables: Vec<String>,
-        fields: HashMap<String, (Span, Type)>,
+        fields: BTreeMap<String, (Span, Type)>,
         external: bool,
     },
 
@@ -292,7 +292,7 @@ pub enum Statement {
         var: Ref,
         span: Span,
         variables: Vec<String>,
-        variants: HashMap<String, (Span, Type)>,
+        variants: BTreeMap<String, (Span, Type)>,
     },
 
     /// Defines a new variable.
